@@ -182,7 +182,7 @@ static void handler_section(void)
 static inline void log_sec(struct thr *t, uint64_t b, uint64_t e)
 {
 	t->sec_total++;
-	if (e - b < 600 && (t->sec_total & 63))
+	if (e - b < 600 && (t->sec_total & 63) && t->nsec >= (t->capsec >> 1))
 		return;
 	if (t->nsec < t->capsec) {
 		t->secs[t->nsec].b = b;
